@@ -186,7 +186,7 @@ void vf_parse_args(int argc, char **argv, vf_args_t *a);
 static inline int vf_mine(const vf_args_t *a, uint64_t idx)
 {
     if (a->only >= 0) return (uint64_t)a->only == idx;
-    return idx % a->nshards == a->shard;
+    { uint64_t x = idx; return vf_splitmix(&x) % a->nshards == a->shard; } /* hashed: no aliasing with idx % k case selectors */
 }
 void vf_finish(void);   /* flush counters; always call before exit */
 
